@@ -918,6 +918,7 @@ pub fn check_conc(
   } else if !aborted_run {
     for (o, answers) in outcome.tail.iter().enumerate() {
       for (k, a) in answers.iter().enumerate() {
+        let k = k.min(TAIL_OPS.len() - 1);
         // without baselines a plain panic cannot be told from an out-of-domain
         // input (totality is C17's subject); a precondition panic always counts
         if let Answer::Panicked(m) = a {
